@@ -147,6 +147,10 @@ func main() {
 			fail("%s: %v", virt, err)
 		}
 		f.Name = virt
+		// second, independent judge: protobuf-go's own descriptor validation
+		if err := protostub.CrossCheck(f); err != nil {
+			fail("%s: %v", virt, err)
+		}
 		gen, err := protostub.Generate(f, virt)
 		if err != nil {
 			fail("protoc-gen-go: %s: %v\n--go_out: protoc-gen-go: Plugin failed with status code 1.", virt, err)
@@ -171,7 +175,16 @@ func main() {
 			if st, err := os.Stat(goOut); err != nil || !st.IsDir() {
 				fail("%s/: No such file or directory", goOut)
 			}
-			write(target(goOut, rel(goOpts), ".pb.go"), gen.PB)
+			pb := gen.PB
+			if plugin := os.Getenv("VERIF_PROTOC_GEN_GO"); plugin != "" {
+				// cross-validation mode: messages come from the REAL protoc-gen-go (built from the module cache)
+				real, err := protostub.RunPlugin(plugin, f, "paths=source_relative")
+				if err != nil {
+					fail("--go_out: protoc-gen-go: %v", err)
+				}
+				pb = real
+			}
+			write(target(goOut, rel(goOpts), ".pb.go"), pb)
 		}
 		if grpcOut != "" && gen.GRPC != nil {
 			if st, err := os.Stat(grpcOut); err != nil || !st.IsDir() {
